@@ -45,40 +45,209 @@ def optNat? (s : String) : Option (Option Nat) :=
 
 def showOpt (o : Option Nat) : String := match o with | some n => toString n | none => "-"
 
+/-- how many consecutive ids directly ahead of the counter are taken (capped at `cap`) -/
+def runAhead (s : NS) : Nat → Nat → Nat
+  | 0, _ => 0
+  | cap + 1, next => if exists? s (idBase + next) then 1 + runAhead s cap (next + 1) else 0
+
+def runClass (n : Nat) : String :=
+  if n = 0 then "0" else if n = 1 then "1" else if n < 15 then "2to14" else if n = 15 then "15"
+  else if n = 16 then "16" else if n = 17 then "17" else if n < 41 then "18to40"
+  else if n < 100 then "41to99" else if n < 1000 then "100to999" else "1000plus"
+
+def clsTag (c : Nat) : String :=
+  if c = 0 then "unspecified" else if c = 1 then "object" else if c = 2 then "variable" else "other"
+
+/-- model branches an AddNodes item took -/
+def addArms (s : NS) (it : AddNodesItem) (st : Status) : String :=
+  let base := s!"addnode-{st.name},addnode-cls-{clsTag it.nodeClass}"
+  let idArm := match it.requested with
+    | some r => if !inRegisteredNs r then ",req-unregistered-ns" else if exists? s r then ",req-taken" else ",req-free"
+    | none => ",req-null"
+  let runArm :=
+    if it.requested.isNone && (st == .good || st == .badTypeDefinitionInvalid || st == .badParentNodeIdInvalid
+        || st == .badNodeAttributesInvalid) then ",auto-run-" ++ runClass (runAhead s 1001 s.next) else ""
+  let tdArm := match it.typeDef with
+    | none => ",td-null"
+    | some t => match classOf s t with
+      | none => ",td-missing"
+      | some c => if c = clsObjectType then ",td-objecttype" else if c = clsVariableType then ",td-variabletype" else ",td-nottype"
+  let parArm := if exists? s it.parent then ",parent-exists" else ",parent-missing"
+  let rtArm := match it.refType with
+    | none => ",rt-invalid"
+    | some t => if hierStd t then ",rt-hier" else ",rt-nonhier"
+  let dupArm := match it.name with
+    | none => ",name-null"
+    | some nm => if nameTaken hierStd s it.parent nm then ",name-taken" else ",name-free"
+  base ++ idArm ++ runArm ++ tdArm ++ parArm ++ rtArm ++ dupArm ++
+    (if it.attrsFit then ",attrs-fit" else ",attrs-misfit") ++ (if it.serverIndex = 0 then "" else ",req-server-index")
+
+def addRefArms (s : NS) (it : AddReferencesItem) (st : Status) : String :=
+  s!"addref-{st.name}" ++ (if it.isForward then ",addref-forward" else ",addref-inverse") ++
+    (if it.source = it.target then ",addref-self" else "") ++
+    (match it.refType with
+     | some t => if hasRef s.sp.refs it.target it.source t then ",addref-opposite-exists" else ""
+     | none => ",rt-invalid") ++
+    (if classOf s it.target == some it.targetClass then ",addref-class-ok" else ",addref-class-differs")
+
+def delNodeArms (s : NS) (n : Nat) (dtr : Bool) (st : Status) : String :=
+  s!"delnode-{st.name}" ++ (if dtr then ",delnode-dtr1" else ",delnode-dtr0") ++
+    (if exists? s n then ",delnode-existing" else ",delnode-absent") ++
+    (if (aggregatesOf aggStd s.sp n).isEmpty then ",delnode-leaf" else ",delnode-with-children") ++
+    (if s.sp.refs.fwd.get n |>.isSome then ",delnode-has-fwd" else "") ++
+    (if s.sp.refs.inv.get n |>.isSome then ",delnode-has-inv" else "")
+
+def delRefArms (s : NS) (it : DeleteReferencesItem) (st : Status) : String :=
+  s!"delref-{st.name}" ++
+    (if it.bidirectional then ",delref-bidi" else if it.isForward then ",delref-forward" else ",delref-inverse") ++
+    (match it.refType with
+     | some t =>
+       (if hasRef s.sp.refs it.source it.target t then ",delref-fwd-present" else ",delref-fwd-absent") ++
+       (if hasRef s.sp.refs it.target it.source t then ",delref-inv-present" else ",delref-inv-absent")
+     | none => ",rt-invalid") ++
+    (if it.sourceNull then ",delref-source-null" else "") ++ (if it.targetNull then ",delref-target-null" else "")
+
+/-- `fill a n`: `n` AddNodes items with the requested ids `a`, `a+1`, … (objects, Organizes, each the
+child of the one before; the first under the Objects folder): occupies a run of ids -/
+def fillLoop : Nat → NS → Nat → Nat → Nat → NS × Nat
+  | 0, s, _, _, good => (s, good)
+  | n + 1, s, a, parent, good =>
+    match addNode hierStd s (AddNodesItem.mk (some a) 0 parent (some 35) (some a) clsObject (some 58) true) with
+    | .ok s' st _ => fillLoop n s' (a + 1) a (if st == .good then good + 1 else good)
+    | .panic => (s, good)
+
+/-! ### multi-item requests -/
+
+def parseAddNode? (t : List String) : Option AddNodesItem :=
+  match t with
+  | [req, si, parent, rt, name, cls, td, attrs] =>
+    match optNat? req, si.toNat?, parent.toNat?, optNat? rt, optNat? name, cls.toNat?, optNat? td, parseBool? attrs with
+    | some req, some si, some parent, some rt, some name, some cls, some td, some attrs =>
+      some (AddNodesItem.mk req si parent rt name cls td attrs)
+    | _, _, _, _, _, _, _, _ => none
+  | _ => none
+
+def parseAddRef? (t : List String) : Option AddReferencesItem :=
+  match t with
+  | [src, tgt, si, uri, rt, fwd, tcls] =>
+    match src.toNat?, tgt.toNat?, si.toNat?, parseBool? uri, optNat? rt, parseBool? fwd, tcls.toNat? with
+    | some src, some tgt, some si, some uri, some rt, some fwd, some tcls =>
+      some (AddReferencesItem.mk src tgt si uri rt fwd tcls)
+    | _, _, _, _, _, _, _ => none
+  | _ => none
+
+def parseDelNode? (t : List String) : Option (Nat × Bool) :=
+  match t with
+  | [n, d] => match n.toNat?, parseBool? d with
+    | some n, some d => some (n, d)
+    | _, _ => none
+  | _ => none
+
+def parseDelRef? (t : List String) : Option DeleteReferencesItem :=
+  match t with
+  | [src, tgt, si, rt, fwd, bidi] =>
+    match optNat? src, optNat? tgt, si.toNat?, optNat? rt, parseBool? fwd, parseBool? bidi with
+    | some src, some tgt, some si, some rt, some fwd, some bidi =>
+      some (DeleteReferencesItem.mk (src.getD 0) (tgt.getD 0) si rt fwd bidi src.isNone tgt.isNone)
+    | _, _, _, _, _, _ => none
+  | _ => none
+
+/-- cut `toks` into `n` items of `k` tokens each -/
+def chunks (k : Nat) : Nat → List String → Option (List (List String))
+  | 0, [] => some []
+  | 0, _ => none
+  | n + 1, toks => if toks.length < k then none else (chunks k n (toks.drop k)).map ((toks.take k) :: ·)
+
+def parseItems {ι : Type} (k : Nat) (p : List String → Option ι) (n : String) (toks : List String) :
+    Option (Option (List ι)) :=
+  if n = "null" then (if toks.isEmpty then some none else none)
+  else match n.toNat? with
+    | some n => match chunks k n toks with
+      | some cs => (cs.mapM p).map some
+      | none => none
+    | none => none
+
+def sizeArm (kind : String) (limit : Nat) {ι : Type} (items : Option (List ι)) : String :=
+  match items with
+  | none => s!"multi-{kind}-null"
+  | some l =>
+    if l.length = 0 then s!"multi-{kind}-empty"
+    else if l.length < limit then s!"multi-{kind}-lt-limit"
+    else if l.length = limit then s!"multi-{kind}-eq-limit"
+    else s!"multi-{kind}-gt-limit"
+
+def showReq {α : Type} (sh : α → String) (s : NS) (o : ReqOut α) (arm : String) : NS × String :=
+  match o with
+  | .fault st => (s, s!"fault {st.name} " ++ obs s ++ " @@ " ++ arm ++ s!",fault-{st.name}")
+  | .results s' rs => (s', "ok [" ++ ",".intercalate (rs.map sh) ++ "] " ++ obs s' ++ " @@ " ++ arm ++
+      (if rs.length > 1 then ",multi-several-items" else ""))
+  | .panic => (s, "panic")
+
 def dstep (s : NS) (toks : List String) : NS × String :=
   match toks with
-  | ["reset", c, _full] =>
+  | ["reset", c, full] =>
     match parseBool? c with
-    | some c => (initNS c, "ok")
+    | some c => (initNS c, "ok @@ " ++ (if c then "session-can-modify" else "session-read-only") ++
+        (if full = "1" then ",space-full-nodeset" else ",space-small"))
     | none => (s, "bad-op")
   | ["addnode", req, si, parent, rt, name, cls, td, attrs] =>
     match optNat? req, si.toNat?, parent.toNat?, optNat? rt, optNat? name, cls.toNat?, optNat? td, parseBool? attrs with
     | some req, some si, some parent, some rt, some name, some cls, some td, some attrs =>
-      match addNode hierStd s (AddNodesItem.mk req si parent rt name cls td attrs) with
-      | .ok s' st id => (s', s!"ok {st.name} {showOpt id} " ++ obs s')
+      let it := AddNodesItem.mk req si parent rt name cls td attrs
+      match addNode hierStd s it with
+      | .ok s' st id => (s', s!"ok {st.name} {showOpt id} " ++ obs s' ++ " @@ " ++ addArms s it st)
       | .panic => (s, "panic")
     | _, _, _, _, _, _, _, _ => (s, "bad-op")
   | ["addref", src, tgt, si, uri, rt, fwd, tcls] =>
     match src.toNat?, tgt.toNat?, si.toNat?, parseBool? uri, optNat? rt, parseBool? fwd, tcls.toNat? with
     | some src, some tgt, some si, some uri, some rt, some fwd, some tcls =>
-      match addReference s (AddReferencesItem.mk src tgt si uri rt fwd tcls) with
-      | .ok s' st _ => (s', s!"ok {st.name} " ++ obs s')
+      let it := AddReferencesItem.mk src tgt si uri rt fwd tcls
+      match addReference s it with
+      | .ok s' st _ => (s', s!"ok {st.name} " ++ obs s' ++ " @@ " ++ addRefArms s it st)
       | .panic => (s, "panic")
     | _, _, _, _, _, _, _ => (s, "bad-op")
   | ["delnode", n, d] =>
     match n.toNat?, parseBool? d with
     | some n, some d =>
       match deleteNode aggStd s n d with
-      | some (s', st) => (s', s!"ok {st.name} " ++ obs s')
+      | some (s', st) => (s', s!"ok {st.name} " ++ obs s' ++ " @@ " ++ delNodeArms s n d st)
       | none => (s, "abort")
     | _, _ => (s, "bad-op")
   | ["delref", src, tgt, si, rt, fwd, bidi] =>
     match optNat? src, optNat? tgt, si.toNat?, optNat? rt, parseBool? fwd, parseBool? bidi with
     | some src, some tgt, some si, some rt, some fwd, some bidi =>
-      let (s', st) := deleteReference s
-        (DeleteReferencesItem.mk (src.getD 0) (tgt.getD 0) si rt fwd bidi src.isNone tgt.isNone)
-      (s', s!"ok {st.name} " ++ obs s')
+      let it := DeleteReferencesItem.mk (src.getD 0) (tgt.getD 0) si rt fwd bidi src.isNone tgt.isNone
+      let (s', st) := deleteReference s it
+      (s', s!"ok {st.name} " ++ obs s' ++ " @@ " ++ delRefArms s it st)
     | _, _, _, _, _, _ => (s, "bad-op")
+  | "multi" :: kind :: limit :: n :: rest =>
+    match limit.toNat? with
+    | none => (s, "bad-op")
+    | some limit =>
+      if kind = "addnode" then
+        match parseItems 8 parseAddNode? n rest with
+        | some items => showReq (fun (r : Status × Option Nat) => s!"{r.1.name}:{showOpt r.2}") s
+            (addNodesReq hierStd limit s items) (sizeArm kind limit items)
+        | none => (s, "bad-op")
+      else if kind = "addref" then
+        match parseItems 7 parseAddRef? n rest with
+        | some items => showReq (fun (r : Status) => r.name) s (addReferencesReq limit s items) (sizeArm kind limit items)
+        | none => (s, "bad-op")
+      else if kind = "delnode" then
+        match parseItems 2 parseDelNode? n rest with
+        | some items => showReq (fun (r : Status) => r.name) s (deleteNodesReq aggStd limit s items) (sizeArm kind limit items)
+        | none => (s, "bad-op")
+      else if kind = "delref" then
+        match parseItems 6 parseDelRef? n rest with
+        | some items => showReq (fun (r : Status) => r.name) s (deleteReferencesReq limit s items) (sizeArm kind limit items)
+        | none => (s, "bad-op")
+      else (s, "bad-op")
+  | ["fill", a, n] =>
+    match a.toNat?, n.toNat? with
+    | some a, some n =>
+      let (s', good) := fillLoop n s a 85 0
+      (s', s!"ok {good} " ++ obs s' ++ " @@ fill")
+    | _, _ => (s, "bad-op")
   | ["obs"] => (s, "ok " ++ obs s)
   | _ => (s, "bad-op")
 
